@@ -8,7 +8,7 @@
      descriptor_stream_wellformed  emit.c descriptors re-parse to the type; total_count skips
                                    exactly the sub-tree of a nil record
      nil_arg_is_ffi_fail (+ _partial, _refuted for the pinned tree's `prep_vals = ...`)        *)
-From Coq Require Import NArith List Bool Lia.
+From Coq Require Import NArith PeanoNat List Bool Lia.
 From NV Require Import FFI.Layout.
 Import ListNotations.
 Local Open Scope N_scope.
@@ -536,3 +536,334 @@ Proof.
   pose proof (unmarshal_ext_fields fs IH Hfs m m' o) as E. unfold unmarshal_fields in E.
   rewrite E by (intros x Hx; apply A; lia). reflexivity.
 Qed.
+
+(* ---------------------------------------------------------------------------------------- *)
+(* _record_value's return value: 1 exactly when the value contains a nil                      *)
+
+Lemma marshal_ret_fields fs :
+  Forall (fun f => forall v m off, has_type f v = true ->
+            snd (marshal f v m off) = contains_nil v) fs ->
+  forall vs m off, forall2b has_type fs vs = true ->
+  snd (marshal_fields fs vs m off) = existsb' contains_nil vs.
+Proof.
+  unfold marshal_fields.
+  induction fs as [|f r IH]; intros HF vs m off HT; destruct vs as [|v vr];
+    try discriminate; [reflexivity|].
+  inversion HF as [|? ? Hf Hr]; subst.
+  cbn [forall2b] in HT. apply andb_true_iff in HT. destruct HT as [T1 T2].
+  cbn [marshal_fields_with existsb'].
+  pose proof (Hf v m off T1) as E1.
+  destruct (marshal f v m off) as [[m1 o1] r1]. cbn [snd] in E1.
+  pose proof (IH Hr vr m1 o1 T2) as E2.
+  destruct (marshal_fields_with marshal r vr m1 o1) as [[m2 o2] r2]. cbn [snd] in *.
+  congruence.
+Qed.
+
+Theorem marshal_ret_iff_nil : forall t v m off, has_type t v = true ->
+  snd (marshal t v m off) = contains_nil v.
+Proof.
+  induction t as [| | | | | | | |fs IH] using fty_ind'; intros v m off HT;
+    try (destruct v as [b|[p|]|[vs|]]; cbn in HT; try discriminate; reflexivity).
+  destruct v as [b|[p|]|[vs|]]; cbn [has_type] in HT; try discriminate; [|reflexivity].
+  cbn [marshal contains_nil].
+  pose proof (marshal_ret_fields fs IH vs m (ffi_align off (alignof (TRec fs))) HT) as E.
+  unfold marshal_fields in E.
+  destruct (marshal_fields_with marshal fs vs m _) as [[m' o'] r]. exact E.
+Qed.
+
+(* ---------------------------------------------------------------------------------------- *)
+(* Round trip                                                                                 *)
+
+Definition roundtrips (f : fty) : Prop :=
+  wf f -> forall v m off, has_type f v = true -> contains_nil v = false ->
+  snd (marshal f v m off) = false /\
+  fst (unmarshal f (fst (fst (marshal f v m off))) off) = v.
+
+Lemma marshal_frame_all fs :
+  Forall (fun f => wf f -> forall v m off,
+            unchanged_outside m (fst (fst (marshal f v m off)))
+              (ffi_align off (alignof f)) (ffi_align off (alignof f) + sizeof f)) fs.
+Proof. apply Forall_forall. intros f _ Wf. apply marshal_frame; auto. Qed.
+
+Lemma roundtrip_fields fs : Forall roundtrips fs -> wfs fs ->
+  forall vs m off, forall2b has_type fs vs = true -> existsb' contains_nil vs = false ->
+  snd (marshal_fields fs vs m off) = false /\
+  fst (unmarshal_fields fs (fst (fst (marshal_fields fs vs m off))) off) = vs.
+Proof.
+  unfold marshal_fields, unmarshal_fields.
+  induction fs as [|f r IH]; intros HF Hfs vs m off HT HN; destruct vs as [|v vr];
+    try discriminate; [split; reflexivity|].
+  inversion HF as [|? ? Hf Hr]; subst. inversion Hfs as [|? ? Wf Wr]; subst.
+  cbn [forall2b] in HT. apply andb_true_iff in HT. destruct HT as [T1 T2].
+  cbn [existsb'] in HN. apply orb_false_iff in HN. destruct HN as [N1 N2].
+  cbn [marshal_fields_with].
+  pose proof (Hf Wf v m off T1 N1) as [R1 U1].
+  pose proof (marshal_offset f v m off) as O1.
+  destruct (marshal f v m off) as [[m1 o1] r1]. cbn [fst snd] in R1, U1, O1. subst o1 r1.
+  set (o1 := ffi_align off (alignof f) + sizeof f) in *.
+  pose proof (IH Hr Wr vr m1 o1 T2 N2) as [R2 U2].
+  pose proof (marshal_frame_fields r (marshal_frame_all r) Wr vr m1 o1) as F2.
+  unfold marshal_fields in F2.
+  destruct (marshal_fields_with marshal r vr m1 o1) as [[m2 o2] r2]. cbn [fst snd] in *.
+  subst r2. split; [reflexivity|].
+  cbn [unmarshal_fields_with].
+  assert (E : unmarshal f m2 off = unmarshal f m1 off).
+  { apply unmarshal_ext; auto. intros x Hx. apply F2. unfold o1. lia. }
+  rewrite E. pose proof (unmarshal_offset f m1 off) as O1'.
+  destruct (unmarshal f m1 off) as [v' o1']. cbn [fst snd] in *. subst v' o1'.
+  fold o1. destruct (unmarshal_fields_with unmarshal r m2 o1) as [vs' o2']. cbn [fst] in *.
+  congruence.
+Qed.
+
+Lemma scalar_roundtrip t b m o : b < 256 ^ N.of_nat (nbytes t) ->
+  load_le (store_le m o (nbytes t) b) o (nbytes t) = b.
+Proof. apply load_store_same. Qed.
+
+Theorem marshal_unmarshal_roundtrip_nested : forall t, roundtrips t.
+Proof.
+  unfold roundtrips.
+  induction t as [| | | | | | | |fs IH] using fty_ind'; intros Hwf v m off HT HN;
+    try (destruct v as [b|[p|]|[vs|]]; cbn [has_type] in HT; try discriminate;
+         cbn [contains_nil] in HN; try discriminate;
+         cbn [marshal unmarshal fst snd]; split; [reflexivity|];
+         rewrite scalar_roundtrip; [reflexivity | apply N.ltb_lt in HT; exact HT]).
+  - (* bool: 0/1 through one byte *)
+    destruct v as [b|[p|]|[vs|]]; cbn [has_type] in HT; try discriminate.
+    cbn [marshal unmarshal fst snd]. split; [reflexivity|].
+    rewrite scalar_roundtrip; [reflexivity|]. apply N.ltb_lt in HT.
+    change (256 ^ N.of_nat (nbytes TBool)) with 256. lia.
+  - (* record *)
+    destruct v as [b|[p|]|[vs|]]; cbn [has_type] in HT; try discriminate;
+      cbn [contains_nil] in HN; try discriminate.
+    pose proof (alignof_pow2 _ Hwf) as Hp.
+    pose proof (proj1 (wf_rec fs) Hwf) as [Hne Hfs].
+    cbn [marshal].
+    set (o := ffi_align off (alignof (TRec fs))).
+    assert (HF : Forall roundtrips fs) by exact IH.
+    pose proof (roundtrip_fields fs HF Hfs vs m o HT HN) as [R U].
+    unfold marshal_fields, unmarshal_fields in R, U.
+    destruct (marshal_fields_with marshal fs vs m o) as [[m' o'] r] eqn:EM.
+    cbn [fst snd] in *. split; [exact R|].
+    cbn [unmarshal]. fold o. unfold o at 1. rewrite ffi_align_idem by auto. fold o.
+    destruct (unmarshal_fields_with unmarshal fs m' o) as [vs' o2]. cbn [fst] in *.
+    congruence.
+Qed.
+
+Lemma ffi_align_0 a : pow2 a -> ffi_align 0 a = 0.
+Proof.
+  intros Ha. rewrite ffi_align_round_up by auto.
+  apply round_up_fix; [apply pow2_pos, Ha | apply N.divide_0_r].
+Qed.
+
+(* as used by vm_execute_func_ffi: fresh zeroed buffer, offset 0, then _record_new from 0 *)
+Theorem marshal_unmarshal_roundtrip : forall fs vs,
+  wf (TRec fs) -> has_type (TRec fs) (VRec (Some vs)) = true ->
+  contains_nil (VRec (Some vs)) = false ->
+  snd (marshal_arg (TRec fs) (VRec (Some vs))) = false /\
+  unmarshal_ret (TRec fs) (fst (marshal_arg (TRec fs) (VRec (Some vs)))) = VRec (Some vs).
+Proof.
+  intros fs vs Hwf HT HN.
+  pose proof (marshal_unmarshal_roundtrip_nested (TRec fs) Hwf (VRec (Some vs)) zero_mem 0 HT HN)
+    as [R U].
+  pose proof (alignof_pow2 _ Hwf) as Hp.
+  unfold marshal_arg, unmarshal_ret, marshal_fields.
+  cbn [marshal] in R, U. rewrite ffi_align_0 in R, U by auto.
+  destruct (marshal_fields_with marshal fs vs zero_mem 0) as [[m' o'] r].
+  cbn [fst snd] in *. split; assumption.
+Qed.
+
+(* ---------------------------------------------------------------------------------------- *)
+(* Descriptor stream                                                                          *)
+
+Lemma emit_total t : snd (emit_param t) = N.of_nat (length (fst (emit_param t))).
+Proof.
+  induction t as [| | | | | | | |fs IH] using fty_ind'; try reflexivity.
+  cbn [emit_param fst snd length].
+  assert (E : snd (emit_list_with emit_param fs) =
+              N.of_nat (length (fst (emit_list_with emit_param fs)))).
+  { induction fs as [|f r IHr]; [reflexivity|]. inversion IH as [|? ? Hf Hr]; subst.
+    cbn [emit_list_with fst snd]. rewrite app_length, Nat2N.inj_add, Hf, IHr by auto. reflexivity. }
+  rewrite E. lia.
+Qed.
+
+Lemma parse_emit_fields k fs :
+  Forall (fun f => forall k rest, (depth f < k)%nat ->
+            parse_type k (fst (emit_param f) ++ rest) = Some (f, rest)) fs ->
+  (max_depth_with depth fs < k)%nat -> forall rest,
+  parse_n (parse_type k) (length fs) (fst (emit_list_with emit_param fs) ++ rest) = Some (fs, rest).
+Proof.
+  induction fs as [|f r IH]; intros HF Hd rest; [reflexivity|].
+  inversion HF as [|? ? Hf Hr]; subst. cbn [max_depth_with] in Hd.
+  cbn [emit_list_with fst length parse_n]. rewrite <- app_assoc.
+  rewrite Hf by lia. rewrite IH by (auto; lia). reflexivity.
+Qed.
+
+Lemma parse_emit t : forall k rest, (depth t < k)%nat ->
+  parse_type k (fst (emit_param t) ++ rest) = Some (t, rest).
+Proof.
+  induction t as [| | | | | | | |fs IH] using fty_ind'; intros k rest Hk;
+    try (destruct k; [lia | reflexivity]).
+  destruct k as [|k]; [lia|]. cbn [depth] in Hk.
+  cbn [emit_param fst]. rewrite <- app_comm_cons. cbn [parse_type].
+  rewrite Nat2N.id. rewrite parse_emit_fields by (auto; lia). reflexivity.
+Qed.
+
+Theorem descriptor_stream_wellformed : forall t rest,
+  (* total_count is the number of descriptors emitted for the parameter *)
+  snd (emit_param t) = N.of_nat (length (fst (emit_param t))) /\
+  (* _record_type re-reads exactly the declared type and stops right after it *)
+  parse_type (S (depth t)) (fst (emit_param t) ++ rest) = Some (t, rest) /\
+  (* nil record: after the DRec descriptor, `ip += total_count - 1` lands exactly where
+     walking the sub-tree would have ended *)
+  (forall fs, t = TRec fs -> exists total body,
+     fst (emit_param t) = DRec (N.of_nat (length fs)) total :: body /\
+     skip_nil_record total (body ++ rest) = rest).
+Proof.
+  intros t rest. split; [apply emit_total|]. split; [apply parse_emit; lia|].
+  intros fs ->. pose proof (emit_total (TRec fs)) as E. cbn [emit_param fst snd length] in *.
+  eexists _, _. split; [reflexivity|].
+  unfold skip_nil_record. rewrite E.
+  replace (N.to_nat (N.of_nat (S (length (fst (emit_list_with emit_param fs)))) - 1))
+    with (length (fst (emit_list_with emit_param fs))) by lia.
+  rewrite skipn_app, skipn_all, Nat.sub_diag. reflexivity.
+Qed.
+
+(* ---------------------------------------------------------------------------------------- *)
+(* Decision logic                                                                             *)
+
+Definition arg_typed (a : fty * fval) : Prop := has_type (fst a) (snd a) = true.
+Definition arg_nil (a : fty * fval) : bool := contains_nil (snd a).
+
+Lemma marshal_arg_ret fs vs : has_type (TRec fs) (VRec (Some vs)) = true ->
+  snd (marshal_arg (TRec fs) (VRec (Some vs))) = existsb' contains_nil vs.
+Proof.
+  intros HT. cbn [has_type] in HT. unfold marshal_arg.
+  assert (HF : Forall (fun f => forall v m off, has_type f v = true ->
+            snd (marshal f v m off) = contains_nil v) fs).
+  { apply Forall_forall. intros f _ v m off. apply marshal_ret_iff_nil. }
+  pose proof (marshal_ret_fields fs HF vs zero_mem 0 HT) as E.
+  destruct (marshal_fields fs vs zero_mem 0) as [[m o] r]. exact E.
+Qed.
+
+Lemma prep_vals_accumulate args : Forall arg_typed args -> forall pv,
+  prep_vals true args pv = pv || existsb' arg_nil args.
+Proof.
+  induction args as [|[t v] r IH]; intros HT pv; cbn [prep_vals existsb'].
+  - rewrite orb_false_r. reflexivity.
+  - inversion HT as [|? ? Ha Hr]; subst. unfold arg_typed, arg_nil in *. cbn [fst snd] in *.
+    destruct t; try (destruct v as [b|[p|]|[vs|]]; cbn in Ha; try discriminate;
+                     rewrite IH by auto; cbn [contains_nil];
+                     rewrite ?orb_false_l, ?orb_true_l, ?orb_true_r; reflexivity).
+    destruct v as [b|[p|]|[vs|]]; cbn [has_type] in Ha; try discriminate; rewrite IH by auto.
+    + rewrite marshal_arg_ret by exact Ha. cbn [contains_nil]. symmetry. apply orb_assoc.
+    + cbn [contains_nil]. rewrite orb_true_l, orb_true_r. reflexivity.
+Qed.
+
+(* with `prep_vals |= ...`: a call happens exactly when nothing is missing and nothing is nil *)
+Theorem nil_arg_is_ffi_fail : forall args prep lib sym, Forall arg_typed args ->
+  (ffi_outcome true prep args lib sym = Called <->
+   prep = true /\ existsb' arg_nil args = false /\ lib = true /\ sym = true).
+Proof.
+  intros args prep lib sym HT. unfold ffi_outcome.
+  rewrite prep_vals_accumulate by auto. cbn [orb].
+  destruct prep, (existsb' arg_nil args), lib, sym; cbn; split; intros H;
+    try discriminate; try reflexivity; try (repeat split; reflexivity);
+    destruct H as (?&?&?&?); discriminate.
+Qed.
+
+(* the pinned tree (`prep_vals = record_value(...)`): ffi_fail is still guaranteed when no
+   record argument follows the nil one ... *)
+Lemma prep_vals_no_rec acc post : forallb' (fun b => negb (is_rec (fst b))) post = true ->
+  prep_vals acc post true = true.
+Proof.
+  induction post as [|[t v] r IH]; intros H; [reflexivity|].
+  cbn [forallb' fst] in H. apply andb_true_iff in H. destruct H as [H1 H2].
+  destruct t; cbn [is_rec negb] in H1; try discriminate; cbn [prep_vals];
+    try (apply IH; exact H2).
+  destruct v as [b|[p|]|[vs|]]; apply IH; exact H2.
+Qed.
+
+Lemma prep_vals_nil_head acc a post pv : arg_typed a -> arg_nil a = true ->
+  forallb' (fun b => negb (is_rec (fst b))) post = true ->
+  prep_vals acc (a :: post) pv = true.
+Proof.
+  destruct a as [t v]. unfold arg_typed, arg_nil. cbn [fst snd]. intros HT HN Hpost.
+  destruct t; destruct v as [b|[p|]|[vs|]]; cbn in HT; try discriminate;
+    cbn [contains_nil] in HN; try discriminate; cbn [prep_vals];
+    try (apply prep_vals_no_rec; exact Hpost).
+  rewrite marshal_arg_ret by exact HT. rewrite HN.
+  destruct acc; rewrite ?orb_true_r; apply prep_vals_no_rec; exact Hpost.
+Qed.
+
+Lemma prep_vals_app acc pre : forall l pv, (forall pv', prep_vals acc l pv' = true) ->
+  prep_vals acc (pre ++ l) pv = true.
+Proof.
+  induction pre as [|[t v] r IH]; intros l pv H; [apply H|].
+  cbn [app prep_vals]. destruct t; try (apply IH; exact H);
+    destruct v as [b|[p|]|[vs|]]; apply IH; exact H.
+Qed.
+
+Theorem nil_arg_is_ffi_fail_partial : forall acc pre a post prep lib sym,
+  arg_typed a -> arg_nil a = true ->
+  forallb' (fun b => negb (is_rec (fst b))) post = true ->
+  ffi_outcome acc prep (pre ++ a :: post) lib sym = FfiFail.
+Proof.
+  intros acc pre a post prep lib sym HT HN Hpost. unfold ffi_outcome.
+  destruct prep; [|reflexivity]. cbn [negb].
+  rewrite prep_vals_app; [reflexivity|].
+  intros pv'. apply prep_vals_nil_head; auto.
+Qed.
+
+(* ... and it is NOT guaranteed in general: a nil string followed by a non-nil record *)
+Theorem nil_arg_is_ffi_fail_refuted : exists args,
+  Forall arg_typed args /\ existsb' arg_nil args = true /\
+  ffi_outcome false true args true true = Called.
+Proof.
+  exists [(TString, VStr None); (TRec [TInt; TInt], VRec (Some [VScalar 1; VScalar 2]))].
+  split; [repeat constructor|]. split; vm_compute; reflexivity.
+Qed.
+
+(* ---------------------------------------------------------------------------------------- *)
+(* No 32-bit wrap-around of the `unsigned int` offsets                                        *)
+
+Definition ndesc (t : fty) : N := N.of_nat (length (fst (emit_param t))).
+
+Lemma alignof_le_8 t : wf t -> alignof t <= 8.
+Proof.
+  induction t as [| | | | | | | |fs IH] using fty_ind'; intros Hwf;
+    try (vm_compute; discriminate).
+  pose proof (proj1 (wf_rec fs) Hwf) as [Hne Hfs]. rewrite alignof_rec by auto.
+  clear Hne Hwf. induction fs as [|f r IHr]; cbn [max_align fold_right]; [lia|].
+  inversion IH; inversion Hfs; subst. fold (max_align r).
+  specialize (IHr ltac:(auto) ltac:(auto)). specialize (H1 ltac:(auto)). lia.
+Qed.
+
+Lemma fields_end_bound fs :
+  Forall (fun f => wf f -> sizeof f + 7 <= 16 * ndesc f) fs -> wfs fs -> forall b,
+  fields_end fs b <= b + 16 * N.of_nat (length (fst (emit_list_with emit_param fs))).
+Proof.
+  induction fs as [|f r IH]; intros HF Hfs b; cbn [fields_end emit_list_with fst length]; [lia|].
+  inversion HF as [|? ? Hf Hr]; inversion Hfs as [|? ? Wf Wr]; subst.
+  specialize (IH Hr Wr (ffi_align b (alignof f) + sizeof f)). specialize (Hf Wf).
+  pose proof (ffi_align_lt b (alignof f) (alignof_pow2 f Wf)).
+  pose proof (alignof_le_8 f Wf). unfold ndesc in Hf.
+  rewrite app_length, Nat2N.inj_add. lia.
+Qed.
+
+Theorem sizeof_bound : forall t, wf t -> sizeof t + 7 <= 16 * ndesc t.
+Proof.
+  induction t as [| | | | | | | |fs IH] using fty_ind'; intros Hwf;
+    try (vm_compute; discriminate).
+  pose proof (proj1 (wf_rec fs) Hwf) as [Hne Hfs].
+  pose proof (fields_end_bound fs IH Hfs 0) as B.
+  pose proof (alignof_le_8 _ Hwf) as A8. rewrite alignof_rec in A8 by auto.
+  rewrite sizeof_rec by auto.
+  assert (Hp : pow2 (max_align fs)) by (apply max_align_pow2; auto; apply wfs_pow2; auto).
+  pose proof (round_up_lt (fields_end fs 0) _ (pow2_pos _ Hp)).
+  unfold ndesc. cbn [emit_param fst length]. rewrite Nat2N.inj_succ. lia.
+Qed.
+
+(* the alignment step, as used: for every alignment that can occur *)
+Theorem ffi_align_is_round_up : forall t v, wf t ->
+  least_aligned v (alignof t) (ffi_align v (alignof t)).
+Proof. intros t v H. apply ffi_align_least, alignof_pow2, H. Qed.
